@@ -218,7 +218,9 @@ def impl_builtin(case):
             W = wrap(np.array(case["warm"], dtype=float))
             det.fit(W)
             det.transform_scores(W)
-        det.fit(X)
+        # fitted on the data, on a series of another length (the fitted penalty_ must be the one used), or on an object
+        # that is overwritten in place afterwards
+        X, _ = core.fit_for(det, case, np.array(case["X"], dtype=float), reps=2)
         if case.get("warm") is not None and case["n"] % 2 == 0:  # the fitted detector is also used on other data of the same index first
             det.predict(wrap(np.array(case["warm"], dtype=float)[::-1] + 1.0))
         if case.get("via") == "transform_scores":
